@@ -14,6 +14,11 @@ from .common import (GEOM, ALLOC, sigma_xy, stmt_calls, facts_text, call_name, n
 
 SPLITS = {"split", "split_horizontal", "split_vertical"}
 OPS = ["Allocation.refine", "Allocation.griddify", "Allocation.uniform_refinement_depth"]
+from framelint.canon import canon_function as _canon_function_expanded
+
+def canon_function(fi, model=None, opts=None):   # rules of this file match shapes: look through every local
+    return _canon_function_expanded(fi, model, opts, expand=True)
+
 
 
 def splitter_role(ctx: Ctx) -> FuncInfo:
@@ -368,12 +373,9 @@ def r6(ctx: Ctx) -> None:
     fg = ctx.func(ALLOC, "Allocation.griddify")
     lx, ly = griddify_loops(ctx, fg)
     pre = [st for st in fg.node.body if st.lineno < lx.lineno and not (isinstance(st, ast.Expr) and isinstance(st.value, ast.Constant))]
-    ca = Canon(fg, ctx.model)
-    ca.block(pre)
-    a = ca.block([lx])
-    cb = Canon(fg, ctx.model)
-    cb.block(pre)
-    b = cb.block([ly])
+    from .common import region_canon
+    a = region_canon(ctx, fg, [lx], pre)
+    b = region_canon(ctx, fg, [ly], pre)
 
     class ProjSwap(Sigma):
         def _ap(self, s):
